@@ -17,6 +17,17 @@ Values:  ("i", int) | ("b", bool) | ("f", float) | ("adt", variant, fields)
          | ("ref", local, proj) | None (Unknown)
 """
 import math
+import re as _re
+
+_INT_IMPL = _re.compile(r"^(?:core|std)::num::<impl (u8|u16|u32|u64|u128|usize|i8|i16|i32|i64|i128|isize)>::")
+
+
+def _int_range(ity):
+    bits = {"usize": 64, "isize": 64}.get(ity) or int(ity[1:])
+    if ity[0] == "u":
+        return 0, (1 << bits) - 1
+    return -(1 << (bits - 1)), (1 << (bits - 1)) - 1
+
 import re
 import struct
 
@@ -322,6 +333,10 @@ class PE:
                 arr = _const_array(o["s"])
                 if arr is not None:
                     return ("arr", arr)
+            if self.crate is not None and isinstance(o.get("s"), str) and ty.split("<")[0] in self.crate.adts:
+                v = self._const_adt(o["s"].replace("{{", "{").replace("}}", "}"))
+                if v is not None:
+                    return v
             if ty in ("&str", "&'static str") and isinstance(o.get("s"), str):
                 t = o["s"]
                 if t.startswith("const "):
@@ -331,6 +346,53 @@ class PE:
                     return ("s", v)
             return UNK
         return UNK
+
+    def _const_adt(self, text):
+        """Value of a struct / enum constant printed by the driver as `path::Type { field: value, .. }`,
+        `path::Enum::Variant`, `true`, `42_u8` ... (fields of other shapes stay unknown)."""
+        text = text.strip()
+        if text in ("true", "false"):
+            return ("b", text == "true")
+        m = re.match(r"^(-?\d+)(_[iu](8|16|32|64|128|size))?$", text)
+        if m:
+            return ("i", int(m.group(1)))
+        m = re.match(r"^([\w:]+)\s*\{(.*)\}$", text, re.S)
+        adts = self.crate.adts
+        if m and m.group(1) in adts and len(adts[m.group(1)]["variants"]) == 1:
+            fields = adts[m.group(1)]["variants"][0]["fields"]
+            vals = [None] * len(fields)
+            depth = 0
+            cur = ""
+            parts = []
+            for ch in m.group(2):
+                if ch in "{([":
+                    depth += 1
+                elif ch in "})]":
+                    depth -= 1
+                if ch == "," and depth == 0:
+                    parts.append(cur)
+                    cur = ""
+                else:
+                    cur += ch
+            if cur.strip():
+                parts.append(cur)
+            for part in parts:
+                if ":" not in part:
+                    return None
+                fname, fval = part.split(":", 1)
+                fname = fname.strip()
+                idx = [i for i, f in enumerate(fields) if f["name"] == fname]
+                if not idx:
+                    return None
+                vals[idx[0]] = self._const_adt(fval)
+            return ("adt", 0, tuple(vals))
+        if re.match(r"^[\w:]+$", text) and "::" in text:
+            owner, vname = text.rsplit("::", 1)
+            if owner in adts:
+                for i, vv in enumerate(adts[owner]["variants"]):
+                    if vv["name"] == vname and not vv["fields"]:
+                        return ("adt", i, ())
+        return None
 
     # ------------------------------------------------------------ rvalues
     def rvalue(self, env, rv, dest_ty):
@@ -380,6 +442,11 @@ class PE:
         if k == "unop":
             a = self.operand(env, rv["a"])
             if a is None:
+                return UNK
+            if rv["op"] == "PtrMetadata":
+                x = self._deref_all(env, a)
+                if x is not None and x[0] == "arr":
+                    return ("i", len(x[1]))       # the length of a slice
                 return UNK
             if rv["op"] == "Not":
                 if a[0] == "b":
@@ -485,7 +552,7 @@ class PE:
             return UNK
         from .facts import Body
         pb = Body(self.body.name + "::promoted[%d]" % idx, raw[idx], None)
-        sub = PE(pb, None, max_states=2000, eq_ok=self.eq_ok)
+        sub = PE(pb, None, max_states=2000, eq_ok=self.eq_ok, crate=self.crate)
         envs = []
         orig_run = sub.run
 
@@ -558,6 +625,13 @@ class PE:
                     if v is not None and v[0] != "ref":
                         return v
             return UNK
+        if cal in ("std::ops::FnOnce::call_once", "std::ops::FnMut::call_mut", "std::ops::Fn::call") \
+                and len(argvals) == 2:
+            tup = a(1)
+            fv = a(0)
+            if tup is not None and tup[0] == "adt" and fv is not None and fv[0] in ("clo", "fn"):
+                return self._apply(env, fv, list(tup[2]))
+            return UNK
         if n.endswith("slice::<impl [T]>::contains") and len(argvals) >= 2:
             arr, x = a(0), a(1)
             if arr is not None and arr[0] == "arr" and x is not None and x[0] == "i":
@@ -567,6 +641,20 @@ class PE:
             arr = a(0)
             if arr is not None and arr[0] == "arr":
                 return ("i", len(arr[1]))
+        if argvals and (n.startswith(("std::vec::Vec::<T, A>::", "alloc::vec::Vec::<T, A>::",
+                                      "std::collections::VecDeque::<T, A>::")) or
+                        "slice::<impl [T]>::" in n):
+            arr = a(0)
+            if arr is not None and arr[0] == "arr":
+                t_ = n.rsplit("::", 1)[-1]
+                if t_ == "len":
+                    return ("i", len(arr[1]))
+                if t_ == "is_empty":
+                    return ("b", len(arr[1]) == 0)
+                if t_ in ("as_slice", "as_mut_slice"):
+                    return ("rv", arr)
+                if t_ in ("first", "last") and len(arr[1]) == 0:
+                    return NONE
         if n.endswith("char::methods::<impl char>::from_u32") or n.endswith("char::from_u32") or \
                 n.endswith("<impl char>::from_u32"):
             v = a(0)
@@ -633,6 +721,8 @@ class PE:
                 return ("i", _wrap(int(v[1]), dty))
             if v is not None and v[0] == "i" and dty in ("f64", "f32"):
                 return ("f", float(v[1]))
+            if v is not None and v[0] == "i" and dty == "char" and 0 <= v[1] <= 0xFF:
+                return ("i", v[1])          # char::from(u8)
             return UNK
         if cal == "std::cmp::Ord::cmp":
             x, y = a(0), a(1)
@@ -660,11 +750,59 @@ class PE:
                 return ("adt", 1, (NONE,))
             return UNK
         tail = n.rsplit("::", 1)[-1]
-        if n.startswith("core::num::<impl u8>::") or n.startswith("core::char::methods::<impl char>::"):
+        m_int = _INT_IMPL.match(n)
+        if m_int:
+            ity = m_int.group(1)
+            lo, hi = _int_range(ity)
+            v, w = a(0), a(1)
+            x = v[1] if (v is not None and v[0] == "i") else None
+            two = x is not None and w is not None and w[0] == "i"
+            y = w[1] if two else None
+            opn = {"add": lambda: x + y, "sub": lambda: x - y, "mul": lambda: x * y}
+            for pre in ("saturating_", "checked_", "wrapping_"):
+                if tail.startswith(pre) and tail[len(pre):] in opn:
+                    if not two:
+                        return UNK
+                    rr = opn[tail[len(pre):]]()
+                    if pre == "saturating_":
+                        return ("i", min(max(rr, lo), hi))
+                    if pre == "checked_":
+                        return some(("i", rr)) if lo <= rr <= hi else NONE
+                    return ("i", (rr - lo) % (hi - lo + 1) + lo)
+            if tail in ("min", "max") and two:
+                return ("i", min(x, y) if tail == "min" else max(x, y))
+            if tail == "abs_diff" and two:
+                return ("i", abs(x - y))
+            if tail == "is_power_of_two" and x is not None:
+                return ("b", x > 0 and x & (x - 1) == 0)
+            if tail == "pow" and two and 0 <= y <= 64:
+                rr = x ** y
+                return ("i", rr) if lo <= rr <= hi else UNK
+        if n.startswith(("core::num::<impl u8>::", "std::num::<impl u8>::", "core::char::methods::<impl char>::",
+                         "std::char::methods::<impl char>::")):
             v = a(0)
             if v is None or v[0] != "i":
                 return UNK
             x = v[1]
+            if tail == "to_digit":
+                w = a(1)
+                if w is None or w[0] != "i" or not (2 <= w[1] <= 36):
+                    return UNK
+                dv = None
+                if 0x30 <= x <= 0x39:
+                    dv = x - 0x30
+                elif 0x61 <= x <= 0x7A:
+                    dv = x - 0x61 + 10
+                elif 0x41 <= x <= 0x5A:
+                    dv = x - 0x41 + 10
+                return some(("i", dv)) if dv is not None and dv < w[1] else NONE
+            if tail == "is_digit":
+                w = a(1)
+                if w is None or w[0] != "i" or not (2 <= w[1] <= 36):
+                    return UNK
+                dv = (x - 0x30) if 0x30 <= x <= 0x39 else (x - 0x61 + 10) if 0x61 <= x <= 0x7A else \
+                    (x - 0x41 + 10) if 0x41 <= x <= 0x5A else None
+                return ("b", dv is not None and dv < w[1])
             if tail == "is_ascii_whitespace":
                 return ("b", x in ASCII_WS)
             if tail == "is_ascii_control":
@@ -871,6 +1009,30 @@ class PE:
                 return ("adt", 0, tuple(args))
             if path in ("std::result::Result::Err", "core::result::Result::Err") and len(args) == 1:
                 return ("adt", 1, tuple(args))
+            # a local function handed over as a value (`.and_then(name_byte)`): evaluated on its own
+            fb = self.crate.bodies.get(path) or getattr(self.crate, "raw_bodies", {}).get(path)
+            if fb is None or getattr(self, "_apply_depth", 0) > 3 or fb.arg_count != len(args):
+                return UNK
+            env2 = {}
+            for i, v in enumerate(args):
+                if v is not None and v[0] == "ref":
+                    inner = self._read(env, v[1], list(v[2]))
+                    v = ("rv", inner) if inner is not None else None
+                if v is not None:
+                    env2[i + 1] = v
+            sub = PE(fb, self.call_model if self.model_in_closures else None, max_states=5000, eq_ok=self.eq_ok,
+                     inline=self.inline, crate=self.crate)
+            sub.model_in_closures = self.model_in_closures
+            sub._apply_depth = getattr(self, "_apply_depth", 0) + 1
+            try:
+                rr = sub.run(env=env2)
+            except RuntimeError:
+                return UNK
+            vals = {v for _, v in rr.returns}
+            if len(vals) == 1 and not rr.panics:
+                v = vals.pop()
+                if v is not None and v[0] != "ref":
+                    return v
             return UNK
         if f[0] != "clo":
             return UNK
@@ -918,10 +1080,66 @@ class PE:
         return True
 
     # ------------------------------------------------------------ exploration
-    def run(self, start=0, env=None, stop=(), at_start_skip_stmts=False):
+    def _invariant_prefix(self, start, env):
+        """Values, on arrival at `start`, of the locals that nothing reachable from `start` can change (a flag or an
+        option read into a local in front of a loop): evaluated from the entry block with no call model. What the
+        caller seeds explicitly wins."""
+        body = self.body
+        cache = body.__dict__.setdefault("_pe_invariants", {})
+        ck = (start, frozenset((env or {}).items()))
+        if ck in cache:
+            return cache[ck]
+        out = {}
+        cache[ck] = out
+        try:
+            reach = body.reachable(start)
+            changed = set()
+            for bb in reach:
+                blk = body.blocks[bb]
+                for st in blk["stmts"]:
+                    if st["k"] == "assign":
+                        changed.add(st["place"]["l"])
+                        if st["rv"]["k"] == "ref" and st["rv"].get("mutbl"):
+                            changed.add(st["rv"]["place"]["l"])
+                    elif "place" in st:
+                        changed.add(st["place"]["l"])
+                t = blk["term"]
+                if t["k"] in ("call", "tailcall") and "dest" in t:
+                    changed.add(t["dest"]["l"])
+                if t["k"] == "drop":
+                    changed.add(t["place"]["l"])
+            for bb, idx, place, rv, _ in body.assignments():
+                if rv["k"] == "ref" and rv.get("mutbl"):
+                    changed.add(rv["place"]["l"])
+            sub = PE(body, None, max_states=3000, eq_ok=self.eq_ok, crate=self.crate)
+            got = []
+
+            def hook(bb, e, first):
+                if bb == start and not first:
+                    got.append(dict(e))
+                    return "stop"
+                return None
+            sub.visit_hook = hook
+            try:
+                sub.run(start=0, env=env, invariants=False)
+            except RuntimeError:
+                got = []
+            if got:
+                for k_, v_ in got[0].items():
+                    if isinstance(k_, int) and k_ > body.arg_count and k_ not in changed and v_ is not None \
+                            and all(g.get(k_) == v_ for g in got):
+                        out[k_] = v_
+        except RuntimeError:
+            pass
+        return out
+
+    def run(self, start=0, env=None, stop=(), at_start_skip_stmts=False, invariants=True):
         res = Result()
         stop = set(stop)
         env0 = dict(env or {})
+        if invariants and start != 0:
+            for k_, v_ in self._invariant_prefix(start, env).items():
+                env0.setdefault(k_, v_)
         work = [(start, env0, True)]
         seen = set()
         body = self.body
